@@ -3,6 +3,7 @@ import LentilVerif.Model.PlaneTilt
 import LentilVerif.Lemmas.PlaneAlg
 import LentilVerif.Lemmas.PropLinear
 import LentilVerif.Lemmas.ChainExtents
+import LentilVerif.Lemmas.PropCommon
 import LentilVerif.Lemmas.Window
 import LentilVerif.Lemmas.PlaneComplex
 import LentilVerif.Props.C09
@@ -203,31 +204,6 @@ theorem propagate_linear_emb (A B : List (Fld K)) (hA : ∀ f ∈ A, 0 < f.arr.s
         unfold embAt; rw [if_neg hin]
       simp only [e]
       rw [sumList_all_zero A _ (fun _ _ => rfl), sumList_all_zero B _ (fun _ _ => rfl)]
-
-/-- the common-shift propagation in closed form: one window for all fields (none: every field is dropped) -/
-theorem propagateDftCommon_eq (data : List (Fld K)) (αr αc : R) (S0 S1 P0 P1 os : Int) (mask : Option Extent)
-    (fix0 fix1 : Int) (sub0 sub1 : R) :
-    propagateDftCommon data αr αc S0 S1 P0 P1 os mask fix0 fix1 sub0 sub1 =
-      match dftWindow (outExtent (S0 * os) (S1 * os) mask) (P0 * os) (P1 * os) fix0 fix1 with
-      | none => []
-      | some (ish, isf, ps) => data.map fun f =>
-          { arr := dft2 f.arr αr αc ish.1 ish.2 (RealLike.ofInt ps.1 + sub0) (RealLike.ofInt ps.2 + sub1) f.o0 f.o1 true,
-            o0 := isf.1, o1 := isf.2 } := by
-  unfold propagateDftCommon propagateDft propagateField
-  simp only [List.filterMap_map, Gen.dftShapeOut, Gen.dftPropShapeOut, Function.comp]
-  cases hw : dftWindow (outExtent (S0 * os) (S1 * os) mask) (P0 * os) (P1 * os) fix0 fix1 with
-  | none =>
-    induction data with
-    | nil => rfl
-    | cons f fs ih => rw [List.filterMap_cons]; exact ih
-  | some w =>
-    obtain ⟨ish, isf, ps⟩ := w
-    simp only []
-    induction data with
-    | nil => rfl
-    | cons f fs ih =>
-      simp only [Gen.dftCallShape, Gen.dftCallShift, Gen.dftCallOffset, Gen.dftFieldOffset] at ih ⊢
-      simp only [List.filterMap_cons, List.map_cons]; rw [ih]
 
 /-- **propagation with a common tilt shift and an output mask is additive in the embedded field**: as `propagate_linear_emb`,
 for builderB's `propagateDft` (the model the driver runs) when all fields carry the same shift `fix + sub` — whatever the
@@ -719,30 +695,6 @@ end fft
 
 section interleaved_e2e
 variable {K R : Type} [Add R] [Sub R] [Mul R] [Neg R] [RealLike R] [NonAssocSemiring K] [CxLike K R]
-
-/-- the chain elements of one description: every `SplitPlane` as its segmented or its monolithic plane, Tilt planes as they are -/
-def descr (seg : Bool) : List (SplitPlane K R ⊕ TiltEl R) → List (ChainEl K R)
-  | [] => []
-  | .inl s :: r => .pl (if seg then s.seg else s.mono) :: descr seg r
-  | .inr e :: r => .tl e :: descr seg r
-
-/-- the `SplitPlane`s of a chain -/
-def splits : List (SplitPlane K R ⊕ TiltEl R) → List (SplitPlane K R)
-  | [] => []
-  | .inl s :: r => s :: splits r
-  | .inr _ :: r => splits r
-
-theorem chainPlanes_descr (seg : Bool) (els : List (SplitPlane K R ⊕ TiltEl R)) :
-    chainPlanes (descr seg els) = (splits els).map (fun s => if seg then s.seg else s.mono) := by
-  induction els with
-  | nil => rfl
-  | cons el els ih => cases el <;> simp [descr, splits, chainPlanes, ih]
-
-theorem chainTilts_descr (seg : Bool) (els : List (SplitPlane K R ⊕ TiltEl R)) :
-    chainTilts (descr seg els) = chainTilts (descr true els) := by
-  induction els with
-  | nil => rfl
-  | cons el els ih => cases el <;> simp [descr, chainTilts, ih]
 
 /-- **segmented = monolithic with Tilt planes anywhere in the chain, as one theorem.** A fresh wavefront carrying the tilt list
 `t0` (`Wavefront(tilt=…)`, leading Tilt planes) passes a masked plane and then masked planes and Tilt planes in any order; every
